@@ -19,3 +19,34 @@ package tsservergen
 //@   modifies *
 //@   at-call p requires typed_like_the_declaration: qp.Field != nil && spec.scalarKindField(qp.Field) && spec.validKind(qp.Field.Desc.Kind()) ==> arg0 == spec.tsQueryExpr(qp.Field)
 //@   ensures one_line: count("p") == old(count("p")) + 1
+
+// ---- the published route is the decided route (C03: dataflow from the deciding function to the emitted text) ----
+// (the emitters of the handler body are separate units: they may print anything but are not part of this argument)
+//@ func validateFieldCoverage(cfg *rpcRouteConfig, method *protogen.Method) (err error)
+//@   modifies *
+//@ func (g *Generator) generatePathParamMerge(p tscommon.Printer, cfg *rpcRouteConfig, m *protogen.Method)
+//@   modifies *
+//@ func (g *Generator) generateHeaderValidation(p tscommon.Printer, serviceHeaders []*sebufhttp.Header, methodHeaders []*sebufhttp.Header)
+//@   modifies *
+//@ func (g *Generator) generatePathParamExtraction(p tscommon.Printer, cfg *rpcRouteConfig)
+//@   modifies *
+//@ func (g *Generator) generateBodyParsing(p tscommon.Printer, method *protogen.Method, tsMethodName string)
+//@   modifies *
+//@ func (g *Generator) generateQueryParamParsing(p tscommon.Printer, cfg *rpcRouteConfig, method *protogen.Method, tsMethodName string)
+//@   modifies *
+
+// a route entry that is emitted carries the verb and the full path decided for that RPC
+//@ func (g *Generator) generateRouteEntry(p tscommon.Printer, service *protogen.Service, method *protogen.Method) (err error)
+//@   requires service != nil && method != nil
+//@   modifies *
+//@   at-call "p:      method: " requires verb_as_decided: line == "      method: \"" + old(spec.verbOf(method)) + "\","
+//@   at-call "p:      path: " requires path_as_decided: line == "      path: \"" + old(spec.clientPath(service, method)) + "\","
+//@   ensures route_emitted: err == nil ==> count("p:      method: ") >= old(count("p:      method: ")) + 1 && count("p:      path: ") >= old(count("p:      path: ")) + 1
+
+// every RPC of the service gets its route entry, in declaration order
+//@ func (g *Generator) generateCreateRoutes(p tscommon.Printer, service *protogen.Service) (err error)
+//@   requires service != nil
+//@   modifies *
+//@   at-call generateRouteEntry requires each_rpc_in_order: arg1 == service && arg2 == service.Methods[count("generateRouteEntry") - old(count("generateRouteEntry"))]
+//@   loop 1 invariant count("generateRouteEntry") == old(count("generateRouteEntry")) + _i1
+//@   ensures one_entry_per_rpc: err == nil ==> count("generateRouteEntry") == old(count("generateRouteEntry")) + len(service.Methods)
